@@ -78,7 +78,7 @@ def _history(rng, npop, rounds):
 
 
 def generate(tier, rng):
-  reps = {'quick': 3, 'thorough': 16, 'search': 16}[tier]
+  reps = {'quick': 6, 'thorough': 16, 'search': 16}[tier]
   for name in ALGS + AGGS:
     for hp in _hp_grid(name, tier, rng):
       for i in range(reps):
@@ -87,7 +87,7 @@ def generate(tier, rng):
         if i == 0:      # hand-made: the empty client participates; a client repeats in consecutive rounds
           hist = [[0, 4], [0, 1], [2, 4], [0, 1, 3]] + hist[4:]
         yield {'name': name, 'hp': hp, 'pop': _POP, 'rounds': hist, 'branch': len(hist) - 3, 'seed': rng.randrange(1000),
-               'ser': 'file' if (i % 2 == 1) else 'pickle'}
+               'ser': 'file' if (i % 2 == 1) else 'pickle', 'fresh': i == 1 or (tier != 'quick' and i % 4 == 1)}
 
 
 # ---- running -------------------------------------------------------------------
@@ -146,18 +146,6 @@ def _init_classes(name, state):
   return out
 
 
-def _rng_path(root, key, depth):
-  """Position of `key` on the all-zeros split path below root: k such that key = split^k(root)[0]; -1 if not there."""
-  import jax
-  cur = root
-  for k in range(depth + 1):
-    if np.array_equal(np.asarray(jax.random.key_data(cur)) if hasattr(jax.random, 'key_data') else np.asarray(cur),
-                      np.asarray(jax.random.key_data(key)) if hasattr(jax.random, 'key_data') else np.asarray(key)):
-      return k
-    cur = jax.random.split(cur)[0]
-  return -1
-
-
 def _serialise(state, how):
   if how == 'pickle':
     return pickle.loads(pickle.dumps(state))
@@ -200,29 +188,57 @@ def _call(name, obj, state, clients, is_agg):
   return obj.apply(state, clients)
 
 
+def _key_bits(k):
+  import jax
+  import jax.numpy as jnp
+  k = jnp.copy(k)      # never look at a live buffer through numpy (see tiny.leaf_bytes)
+  return np.asarray(jax.random.key_data(k)) if hasattr(jax.random, 'key_data') else np.asarray(k)
+
+
+def _rng_path(root, key, depth):
+  """Position of `key` on the all-zeros split path below root: k such that key = split^k(root)[0]; -1 if not there."""
+  import jax
+  cur = root
+  want = _key_bits(key)
+  for k in range(depth + 1):
+    if np.array_equal(_key_bits(cur), want):
+      return k
+    cur = jax.random.split(cur)[0]
+  return -1
+
+
+def _same_out(o, s, d):
+  return tiny.same_snapshot(o[0], tiny.snapshot(s)) and tiny.same_snapshot(o[1], tiny.snapshot(d))
+
+
 def run(case):
   name, hp = case['name'], case['hp']
   is_agg = name in AGGS
+  make = (lambda fresh=False: tiny.aggregator(name, hp, fresh)) if is_agg else (lambda fresh=False: tiny.algorithm(name, hp, fresh))
+  obj = make()
   if is_agg:
-    obj = tiny.aggregator(name, hp)
     state = obj.init()
     root = state.rng
     datasets = None
   else:
-    obj = tiny.algorithm(name, hp)
     state = tiny.init_state(name, hp, obj)
     datasets = [tiny.client_dataset(s) for s in case['pop']]
-  obs = {'init': _init_classes(name, state), 'rounds': [], 'restore_same': True, 'err': None}
+  clients_of = (lambda r: _agg_clients(case, r)) if is_agg else (lambda r: _clients_for(case, r, datasets))
+  obs = {'init': _init_classes(name, state), 'rounds': [], 'restore_same': True, 'err': None,
+         'rebranch_same': True, 'fresh_same': True}
   restored, post = None, []
+  states, outs = [], []      # the input state object and the recorded result of every call of the main history
   nr = len(case['rounds'])
   try:
     for r in range(nr):
-      clients = _agg_clients(case, r) if is_agg else _clients_for(case, r, datasets)
+      clients = clients_of(r)
       before = tiny.snapshot(state)
       conts = tiny.containers(state) + tiny.containers(clients)
       cbefore = _client_snapshot(clients, is_agg)
       s1, d1 = _call(name, obj, state, clients, is_agg)
       o1 = (tiny.snapshot(s1), tiny.snapshot(d1))
+      states.append(state)
+      outs.append(o1)
       ro = {
           'input_same': tiny.same_snapshot(before, tiny.snapshot(state)),
           'deleted': tiny.count_deleted(state),
@@ -235,11 +251,20 @@ def run(case):
       }
       try:
         s2, d2 = _call(name, obj, state, clients, is_agg)
-        o2 = (tiny.snapshot(s2), tiny.snapshot(d2))
-        ro['repeat_same'] = tiny.same_snapshot(o1[0], o2[0]) and tiny.same_snapshot(o1[1], o2[1])
+        ro['repeat_same'] = _same_out(o1, s2, d2)
       except Exception as ex:   # e.g. the first call deleted (donated) buffers of its arguments
         ro['repeat_same'] = False
         ro['second_err'] = type(ex).__name__ + ': ' + str(ex)[:120]
+      # an EARLIER call made again now (other calls happened in between, through the same object)
+      ro['earlier_call_same'] = True
+      if r >= 1:
+        try:
+          j = (r - 1) // 2
+          sj, dj = _call(name, obj, states[j], clients_of(j), is_agg)
+          ro['earlier_call_same'] = _same_out(outs[j], sj, dj)
+        except Exception as ex:
+          ro['earlier_call_same'] = False
+          ro['earlier_err'] = type(ex).__name__ + ': ' + str(ex)[:120]
       ro['first_result_readable'] = (tiny.count_deleted(s1) + tiny.count_deleted(d1) == 0 and
                                      tiny.same_snapshot(o1[0], tiny.snapshot(s1)))
       ro['still_same_after_second'] = (tiny.same_snapshot(before, tiny.snapshot(state)) and tiny.count_deleted(state) == 0
@@ -256,7 +281,7 @@ def run(case):
       if restored is not None:
         try:
           rs, rd = _call(name, obj, restored, clients, is_agg)
-          post.append(tiny.same_snapshot(o1[0], tiny.snapshot(rs)) and tiny.same_snapshot(o1[1], tiny.snapshot(rd)))
+          post.append(_same_out(o1, rs, rd))
           restored = rs
         except Exception:     # arguments destroyed by the first call
           post.append(False)
@@ -264,6 +289,28 @@ def run(case):
       if r == case['branch']:
         restored = _serialise(state, case.get('ser', 'pickle'))
         post.append(tiny.same_snapshot(tiny.snapshot(state), tiny.snapshot(restored)))
+    # branch a second time from the very state object the history branched from
+    b = case['branch'] + 1
+    if b < nr:
+      try:
+        cur = states[b]
+        for r in range(b, nr):
+          cur, dd = _call(name, obj, cur, clients_of(r), is_agg)
+          obs['rebranch_same'] &= _same_out(outs[r], cur, dd)
+      except Exception as ex:
+        obs['rebranch_same'] = False
+        obs['rebranch_err'] = type(ex).__name__ + ': ' + str(ex)[:120]
+      # a freshly built algorithm / aggregator object continuing from the serialised state
+      if case.get('fresh'):
+        try:
+          obj2 = make(True)
+          cur = _serialise(states[b], case.get('ser', 'pickle'))
+          for r in range(b, nr):
+            cur, dd = _call(name, obj2, cur, clients_of(r), is_agg)
+            obs['fresh_same'] &= _same_out(outs[r], cur, dd)
+        except Exception as ex:
+          obs['fresh_same'] = False
+          obs['fresh_err'] = type(ex).__name__ + ': ' + str(ex)[:120]
   except Exception as ex:    # an algorithm that raises on in-quantifier input is itself a finding
     obs['err'] = type(ex).__name__ + ': ' + str(ex)[:200]
   obs['restore_same'] = all(post)
@@ -287,10 +334,16 @@ def oracle(case, obs):
       out.append((n + '.clients-changed', f'{n} round {r}: the client tuple changed value or lost buffers'))
     if not ro['repeat_same']:
       out.append((n + '.not-repeatable', f'{n} round {r}: a second apply() with the same arguments returned a different state / diagnostics'))
+    if not ro.get('earlier_call_same', True):
+      out.append((n + '.hidden-state', f'{n} round {r}: an earlier call repeated after other calls through the same object returned a different result'))
     if not ro['first_result_readable']:
       out.append((n + '.result-invalidated', f'{n} round {r}: the first result changed or was deleted by the second call'))
   if not obs['restore_same']:
     out.append((n + '.restore-diverges', f'{n}: continuing from the serialised-and-restored state diverged from the original continuation'))
+  if not obs.get('rebranch_same', True):
+    out.append((n + '.rebranch-diverges', f'{n}: branching a second time from the same state gave different states'))
+  if not obs.get('fresh_same', True):
+    out.append((n + '.fresh-object-diverges', f'{n}: a freshly built algorithm object continuing from the serialised state diverged (state kept outside the server state)'))
   if obs['restore_checks'] < 3:
     out.append(('harness.no-restore-check', 'history too short for the restore clause'))
   return out
